@@ -24,3 +24,16 @@ Print Assumptions C06_insert_total.
 Theorem C06_sub_path_total : forall nw, stmt_sub_path_total nw.
 Proof. exact sub_path_total. Qed.
 Print Assumptions C06_sub_path_total.
+
+(** "neither panics nor runs forever", on the functional model of the whole pipeline, in which every unwrap, index and
+    unsigned subtraction of the code is an explicit Panic and every fuelled loop an explicit OutOfFuel: for every network
+    loaded from a valid instance with unsigned figures and non-negative cost rates, for flow tours that are typed valid
+    Paths over known nodes within the formation / track limits whose fleet fits the overflow depot (what the certified
+    flow and its decomposition give: C14), building the start schedule, the first depot improvement, every neighbourhood
+    generation along EVERY trajectory of the search, the final stages for EVERY valid optimiser result, and the rendering
+    all succeed. (Termination of the two search loops: C08's run_terminates; runtime aspects — threads, memory, the
+    external flow solver — are outside the model and exercised by the runs of this check.) *)
+From RS Require Import LoadStmts LoadFacts EndToEndStmts NoPanicFactsA PipelineTotalStmts PipelineTotalFacts.
+Theorem C06_pipeline_never_crashes : stmt_pipeline_never_crashes_loaded.
+Proof. exact pipeline_never_crashes_loaded. Qed.
+Print Assumptions C06_pipeline_never_crashes.
